@@ -309,9 +309,9 @@ def run(ctx):
     if r.violated:
         preds.append(("liveness", r))
     # the invariants have teeth: broken variants of the code are rejected by the model
-    muts = (("idonly", "NoCrossTalk"), ("cmdwide", "AwaitingPending"), ("inflight", "PromptSend"), ("tgtonly", "NoCrossTalk"),
-            ("nounreg", "PendingAwaits"))
-    for mut, expect in (muts[1:3] if quick else muts):
+    muts = (("idonly", "NoCrossTalk"), ("cmdwide", "AwaitingPending"), ("inflight", "PromptSend"), ("errszero", "OwnAnswer"),
+            ("tgtonly", "NoCrossTalk"), ("nounreg", "PendingAwaits"))
+    for mut, expect in (muts[1:4] if quick else muts):
         r = model(ctx, "mutant %s (must be rejected)" % mut, ["c1", "c2"], ["t1", "t2"], ["q1"], CROSS_BEHS + [SLOW], T2, Q1, ORD,
                   mutant=mut, workers=2)
         if not r.violated:
